@@ -54,6 +54,9 @@ def main():
         for v in j.get("violations", []):
             print("  recorded: %s at %s -- %s" % (v.get("key"), v.get("loc"), v.get("detail")))
 
+    if tier == "thorough":
+        import lib_flow
+        lib_flow.EXTRA_VISITS = max(lib_flow.EXTRA_VISITS, 1)   # every loop unrolled once more than in the quick tier
     mod = importlib.import_module(prop.lower())
     configs = ["default"] if tier == "quick" else ["default", "noassert", "cfgmiri"]
     scratch = None
@@ -80,6 +83,11 @@ def main():
                 extra["dependency_versions"] = [d["name"] + "@" + d["hash"] for d in facts.deps
                                                 if d["name"] in ("cordyceps", "diatomic_waker", "spin", "futures_core", "pin_project_lite")]
                 extra["mir_bodies"] = len(facts.body_list)
+                extra["canonicalisation"] = {"private_helpers_inlined": facts.inlined.get("call_sites_inlined", {}),
+                                             "std_combinators_expanded": facts.inlined.get("combinator_closures", {}),
+                                             "analysed_in_place_only": facts.inlined.get("fully_inlined", [])}
+                import lib_flow as _lf
+                extra["loop_unrolling"] = "path rules visit every block at most %d (+%d for the adapter model) times" % (2 + _lf.EXTRA_VISITS, 1)
         if tier == "thorough" and hasattr(mod, "thorough"):
             extra.update(mod.thorough(ctxs, a) or {})
         if tier == "thorough" and prop in ("C01", "C03") and not a.no_mutants:
